@@ -134,6 +134,14 @@ func (r *Report) Finish(verifDir, evidencePath string) int {
 		}
 	}
 	sort.Strings(floorFail)
+	// a rule that matches fewer sites than were confirmed by hand on the reference tree has lost
+	// its subject on this tree: that is a verdict about the tree (undecided never passes), not a
+	// failure of the tool
+	for _, f := range floorFail {
+		rule, _, _ := strings.Cut(f, ":")
+		r.Obls = append(r.Obls, Obligation{Rule: rule, Key: rule + "/instances found on this tree", Pos: "-", OK: false,
+			Detail: "the rule found fewer instances than its floor (" + f + "): code it is about has disappeared or changed shape, so the rule decides nothing here"})
+	}
 
 	// violations, deduplicated by key
 	type viol struct {
@@ -262,12 +270,6 @@ func (r *Report) Finish(verifDir, evidencePath string) int {
 	}
 	for _, l := range lines {
 		fmt.Println(l)
-	}
-	if len(floorFail) > 0 {
-		for _, f := range floorFail {
-			fmt.Fprintf(os.Stderr, "INFRA: instance floor not met: %s\n", f)
-		}
-		return 2
 	}
 	if newViol > 0 {
 		return 1
